@@ -454,4 +454,306 @@ theorem glue_sim : ∀ (cnt f i : Nat) (k : ThetaSt OSt) (m : St),
     · simpa [OSt.put] using R.lg
 end Loop2
 
+
+/-! ### the main loop: recomputation of `len_count` -/
+
+theorem levelSum_prefix (lv : Nat → Option Nat) (a : Nat) : ∀ (b S : Nat), levelSum lv (a + b) = some S →
+    ∃ S', levelSum lv a = some S' := by
+  intro b
+  induction b with
+  | zero => intro S h; exact ⟨S, h⟩
+  | succ b ih =>
+    intro S h
+    have e : a + (b + 1) = (a + b) + 1 := by omega
+    rw [e] at h
+    simp only [levelSum] at h
+    cases h1 : levelSum lv (a + b) with
+    | none => simp [h1] at h
+    | some S1 => exact ih S1 h1
+
+theorem levelSum_succ (lv : Nat → Option Nat) (j a S : Nat) (h0 : levelSum lv j = some a)
+    (h : levelSum lv (j + 1) = some S) : ∃ b, lv j = some b ∧ S = a + b := by
+  simp only [levelSum, h0] at h
+  cases hb : lv j with
+  | none => simp [hb] at h
+  | some b => simp [hb] at h; exact ⟨b, rfl, h.symm⟩
+
+section Loop4
+variable (P : Params) (oracle : Nat → Bool) (fuel : Nat) (ea : Int)
+
+/-- `for (j = 0; j < len_list; j++) len_count += level[j]` ≙ `levelSum` -/
+theorem loop4 (lv : Nat → Option Nat) : ∀ (cnt f j a : Nat) (k : ThetaSt OSt), k.fault = none → k.obs.bad = false →
+    k.j = (j : Int) → k.len_list = (j : Int) + (cnt : Int) → k.len_count = (a : Int) → levelSum lv j = some a →
+    k.level.size = (P.n : Int) → j + cnt ≤ P.n → (∀ i : Nat, k.level.get (i : Int) = (lv i).map Int.ofNat) → cnt ≤ f →
+    ∀ S, levelSum lv (j + cnt) = some S →
+    whileF (ThetaSt.live obs)
+      (fun s => match theta_chain_comput_strategy_loop4_cond obs P.row oracle fuel P.n ea s with | .ok b => b | .error _ => true)
+      (fun s => match theta_chain_comput_strategy_loop4_cond obs P.row oracle fuel P.n ea s with
+        | .ok _ => theta_chain_comput_strategy_loop4_body obs P.row oracle fuel P.n ea s | .error f => s.fail f)
+      (fun s => s.fail .fuel) f k = { k with j := ((j + cnt : Nat) : Int), len_count := (S : Int) } := by
+  intro cnt
+  induction cnt with
+  | zero =>
+    intro f j a k hf hb hj hl hc h0 _ _ _ _ S hS
+    rw [whileF_stop _ _ _ _ _ _ (by simp [theta_chain_comput_strategy_loop4_cond, hj, hl])]
+    rw [Nat.add_zero, h0] at hS
+    cases hS
+    cases k; simp at hj hc; simp [hj, hc]
+  | succ cnt ih =>
+    intro f j a k hf hb hj hl hc h0 hsz hn hg hfu S hS
+    obtain ⟨f', rfl⟩ : ∃ f', f = f' + 1 := ⟨f - 1, by omega⟩
+    have e : j + (cnt + 1) = (j + 1) + cnt := by omega
+    rw [e] at hS
+    obtain ⟨S1, hS1⟩ := levelSum_prefix lv (j + 1) cnt S hS
+    obtain ⟨b, hb1, hS1b⟩ := levelSum_succ lv j a S1 h0 hS1
+    have hlive : ThetaSt.live obs k = true := by simp [ThetaSt.live, obs, hf, hb]
+    rw [whileF_step _ _ _ _ _ _ (by simp [theta_chain_comput_strategy_loop4_cond, hj, hl, hlive]; omega)]
+    have hin : k.level.inb (j : Int) = true := by simp [IArr.inb, hsz]; omega
+    have hbody : (match theta_chain_comput_strategy_loop4_cond obs P.row oracle fuel P.n ea k with
+        | .ok _ => theta_chain_comput_strategy_loop4_body obs P.row oracle fuel P.n ea k | .error f => k.fail f) =
+        { k with j := ((j + 1 : Nat) : Int), len_count := ((a + b : Nat) : Int) } := by
+      simp [theta_chain_comput_strategy_loop4_cond, theta_chain_comput_strategy_loop4_body, ThetaSt.step, ThetaSt.live, obs,
+        hf, hb, hj, hc, rdArr, hin, hg, hb1]
+    rw [hbody]
+    rw [ih f' (j + 1) (a + b) { k with j := ((j + 1 : Nat) : Int), len_count := ((a + b : Nat) : Int) } hf hb rfl
+      (by simp only []; rw [hl]; push_cast; omega) rfl (by rw [← hS1b]; exact hS1) hsz (by omega) hg (by omega) S hS]
+    simp only [ThetaSt.mk.injEq, true_and, and_true]
+    omega
+end Loop4
+
+
+/-! ### the main loop: the inner `while` -/
+
+theorem pushBody_inv (P : Params) (s : St) (b : Nat) (he : (pushBody P s b).err = none) :
+    ∃ c o : Nat, s.lenList = (c : Int) + 1 ∧ c + 1 < P.n ∧ s.q c = some o := by
+  by_cases hidx : (idxOK s.lenList P.n && idxOK (s.lenList - 1) P.n) = true
+  · have hidx' := hidx
+    simp [idxOK] at hidx'
+    obtain ⟨c, hc⟩ : ∃ c : Nat, s.lenList = (c : Int) + 1 := ⟨(s.lenList - 1).toNat, by omega⟩
+    have h1 : idxOK ((c : Int) + 1) P.n = true := by simp [idxOK]; omega
+    have h2 : idxOK (c : Int) P.n = true := by simp [idxOK]; omega
+    cases ho : s.q c with
+    | none => simp [pushBody, hc, h1, h2, ho, St.fail] at he
+    | some o => exact ⟨c, o, hc, by omega, ho⟩
+  · simp [pushBody, hidx, St.fail] at he
+
+theorem whileLoop_err (P : Params) (i : Nat) (s : St) (h : s.err.isSome = true) : whileLoop P i s = s := by
+  rw [whileLoop]; simp [h]
+
+section Loop5
+variable (P : Params) (oracle : Nat → Bool) (fuel : Nat) (ea : Int)
+
+theorem body5 (k : ThetaSt OSt) (c ix b v w : Nat) (hf : k.fault = none) (hb : k.obs.bad = false)
+    (hl : k.len_list = (c : Int) + 1) (hix : k.index = (ix : Int)) (hrd : rdRow P.row (ix : Int) = .ok (b : Int))
+    (hs3 : k.obs.size 3 = (P.n : Int)) (hs4 : k.obs.size 4 = (P.n : Int)) (hls : k.level.size = (P.n : Int))
+    (hin : c + 1 < P.n) (hv : k.obs.arr 3 (c : Int) = some v) (hw : k.obs.arr 4 (c : Int) = some w) :
+    theta_chain_comput_strategy_loop5_body obs P.row oracle fuel P.n ea k =
+      { k with len_count := k.len_count + (b : Int), level := k.level.set ((c : Int) + 1) (b : Int),
+               index := (ix : Int) + 1, len_list := (c : Int) + 1 + 1,
+               obs := { ((k.obs.put 3 ((c : Int) + 1) (v - b)).put 4 ((c : Int) + 1) (w - b)) with
+                        dbls := k.obs.dbls ++ [(3, (c : Int) + 1, (b : Int))] } } := by
+  have hlin : k.level.inb ((c : Int) + 1) = true := by simp [IArr.inb, hls]; omega
+  have hi0 : (0 : Int) ≤ (c : Int) := by omega
+  have hi1 : (0 : Int) ≤ (c : Int) + 1 := by omega
+  have hi2 : (c : Int) < (P.n : Int) := by omega
+  have hi3 : (c : Int) + 1 < (P.n : Int) := by omega
+  have hi4 : c < P.n := by omega
+  have hne : ¬ ((c : Int) = (c : Int) + 1) := by omega
+  simp [theta_chain_comput_strategy_loop5_body, ThetaSt.step, ThetaSt.live, obs, hf, hb, hl, hix, hrd, EvKind.dblIter,
+    ev_dblQ_s, OSt.inb, OSt.put, hs3, hs4, hv, hw, hlin, hi0, hi1, hi2, hi3, hi4, hin, hne]
+
+/-- one iteration of the inner `while` ≙ `pushBody` -/
+theorem push_sim (k : ThetaSt OSt) (m : St) (R : Rel P k m) (hs : m.index < P.row.length)
+    (he : (pushBody P m P.row[m.index]).err = none) :
+    Rel P (theta_chain_comput_strategy_loop5_body obs P.row oracle fuel P.n ea k)
+      { pushBody P m P.row[m.index] with index := m.index + 1 } ∧
+    (theta_chain_comput_strategy_loop5_body obs P.row oracle fuel P.n ea k).i = k.i := by
+  obtain ⟨c, o, hc, hv, ho⟩ := pushBody_inv P m _ he
+  rw [body5 P oracle fuel ea k c m.index P.row[m.index] o o R.kf R.kb (by rw [R.ll, hc]) R.ix
+    (rdRow_ok P.row m.index hs) R.s3 R.s4 R.lvs hv (by rw [R.a3, ho]) (by rw [R.a4, ho]),
+    pushBody_ok P m c _ o R.me hc hv ho]
+  refine ⟨?_, rfl⟩
+  have hne1 : ¬ ((4 : Int) = 3) := by omega
+  constructor
+  · exact R.kf
+  · simp [OSt.put, R.kb]
+  · rfl
+  · simp [pushed, R.ix]
+  · simp [pushed]; omega
+  · simp [pushed, R.lc]
+  · exact R.ad
+  · simp [IArr.set, R.lvs]
+  · intro i
+    simp only [IArr.set, pushed, SqiModel.ThetaChain.upd]
+    by_cases hi' : i = c + 1
+    · subst hi'; simp
+    · have : ¬ (i : Int) = (c : Int) + 1 := by omega
+      simp [hi', this, R.lvg]
+  · simp [OSt.put, R.s1]
+  · simp [OSt.put, R.s2]
+  · simp [OSt.put, R.s3]
+  · simp [OSt.put, R.s4]
+  · simp [OSt.put, R.s5]
+  · intro i; simp [OSt.put, pushed, R.a1]
+  · intro i; simp [OSt.put, pushed, R.a2]
+  · intro i
+    simp only [OSt.put, pushed, SqiModel.ThetaChain.upd]
+    by_cases hi' : i = c + 1
+    · subst hi'; simp
+    · have : ¬ (i : Int) = (c : Int) + 1 := by omega
+      simp [hi', this, R.a3]
+  · intro i
+    simp only [OSt.put, pushed, SqiModel.ThetaChain.upd]
+    by_cases hi' : i = c + 1
+    · subst hi'; simp
+    · have : ¬ (i : Int) = (c : Int) + 1 := by omega
+      simp [hi', this, R.a4]
+  · simp [OSt.put, R.tg]
+  · have := R.lg
+    simp only [logs, Prod.mk.injEq] at this
+    simp [OSt.put, pushed, logs_append, this.1, this.2.1, this.2.2, logs, mDbls, mSteps, mKers]
+
+/-- the inner `while (len_count != n - i - 2 - adjusting)` ≙ `whileLoop` -/
+theorem while_sim (i : Nat) : ∀ (n f : Nat) (k : ThetaSt OSt) (m : St), Rel P k m → k.i = (i : Int) →
+    P.row.length - m.index ≤ n → n ≤ f → (whileLoop P i m).err = none →
+    Rel P
+      (whileF (ThetaSt.live obs)
+        (fun s => match theta_chain_comput_strategy_loop5_cond obs P.row oracle fuel P.n ea s with | .ok b => b | .error _ => true)
+        (fun s => match theta_chain_comput_strategy_loop5_cond obs P.row oracle fuel P.n ea s with
+          | .ok _ => theta_chain_comput_strategy_loop5_body obs P.row oracle fuel P.n ea s | .error f => s.fail f)
+        (fun s => s.fail .fuel) f k)
+      (whileLoop P i m) ∧
+    (whileF (ThetaSt.live obs)
+        (fun s => match theta_chain_comput_strategy_loop5_cond obs P.row oracle fuel P.n ea s with | .ok b => b | .error _ => true)
+        (fun s => match theta_chain_comput_strategy_loop5_cond obs P.row oracle fuel P.n ea s with
+          | .ok _ => theta_chain_comput_strategy_loop5_body obs P.row oracle fuel P.n ea s | .error f => s.fail f)
+        (fun s => s.fail .fuel) f k).i = (i : Int) := by
+  intro n
+  induction n with
+  | zero =>
+    intro f k m R hi hn _ he
+    have hm : P.m = (P.n : Int) - 1 - (P.adj : Int) := rfl
+    by_cases hb : m.lenCount = P.m - 1 - (i : Int)
+    · rw [whileLoop_exit P i m R.me hb]
+      rw [whileF_stop _ _ _ _ _ _ (by simp [theta_chain_comput_strategy_loop5_cond, R.lc, hi, R.ad, hb, hm]; omega)]
+      exact ⟨R, hi⟩
+    · exfalso
+      rw [whileLoop] at he
+      have : ¬ m.index < P.row.length := by omega
+      simp [R.me, hb, this, St.fail] at he
+  | succ n ih =>
+    intro f k m R hi hn hf he
+    have hm : P.m = (P.n : Int) - 1 - (P.adj : Int) := rfl
+    by_cases hb : m.lenCount = P.m - 1 - (i : Int)
+    · rw [whileLoop_exit P i m R.me hb]
+      rw [whileF_stop _ _ _ _ _ _ (by simp [theta_chain_comput_strategy_loop5_cond, R.lc, hi, R.ad, hb, hm]; omega)]
+      exact ⟨R, hi⟩
+    · by_cases hs : m.index < P.row.length
+      · obtain ⟨f', rfl⟩ : ∃ f', f = f' + 1 := ⟨f - 1, by omega⟩
+        have hlive : ThetaSt.live obs k = true := by simp [ThetaSt.live, obs, R.kf, R.kb]
+        rw [whileF_step _ _ _ _ _ _ (by
+          simp [theta_chain_comput_strategy_loop5_cond, R.lc, hi, R.ad, hlive]
+          intro h; apply hb; rw [hm]; omega)]
+        rw [whileLoop_push P i m R.me hb hs] at he ⊢
+        have hpe : (pushBody P m P.row[m.index]).err = none := by
+          cases hq : (pushBody P m P.row[m.index]).err with
+          | none => rfl
+          | some e =>
+            rw [whileLoop_err P i _ (by simp [hq])] at he
+            simp [hq] at he
+        obtain ⟨R', hi'⟩ := push_sim P oracle fuel ea k m R hs hpe
+        have hbody : (match theta_chain_comput_strategy_loop5_cond obs P.row oracle fuel P.n ea k with
+            | .ok _ => theta_chain_comput_strategy_loop5_body obs P.row oracle fuel P.n ea k | .error f => k.fail f) =
+            theta_chain_comput_strategy_loop5_body obs P.row oracle fuel P.n ea k := by
+          simp [theta_chain_comput_strategy_loop5_cond]
+        rw [hbody]
+        exact ih f' _ _ R' (by rw [hi', hi]) (by simp only []; omega) (by omega) he
+      · exfalso
+        rw [whileLoop] at he
+        simp [R.me, hb, hs, St.fail] at he
+end Loop5
+
+
+/-! ### the main loop: evaluation of the remaining points through the new step -/
+
+/-- observer after `Q1[x], Q2[x]` have been pushed through a step for `lo ≤ x < hi` -/
+def evalQ (o : OSt) (lo hi : Int) : OSt :=
+  { o with arr := fun a x => if (a = 3 ∨ a = 4) ∧ lo ≤ x ∧ x < hi then (o.arr a x).map (· - 1) else o.arr a x }
+
+theorem evalQ_step (o : OSt) (j : Int) (hi : Int) (v w : Nat) (hv : o.arr 3 j = some v) (hw : o.arr 4 j = some w)
+    (hj : j < hi) :
+    evalQ ((o.put 3 j (v - 1)).put 4 j (w - 1)) (j + 1) hi = evalQ o j hi := by
+  simp only [evalQ, OSt.put]
+  congr 1
+  funext a x
+  by_cases hx : x = j
+  · subst hx
+    have h1 : ¬ (x + 1 ≤ x) := by omega
+    by_cases h3 : a = 3
+    · subst h3; simp [h1, hv, hj]
+    · by_cases h4 : a = 4
+      · subst h4; simp [h1, hw, hj]
+      · simp [h3, h4]
+  · have h1 : (j + 1 ≤ x) ↔ (j ≤ x) := by omega
+    simp [hx, h1]
+
+theorem evalQ_empty (o : OSt) (j : Int) : evalQ o j j = o := by
+  simp only [evalQ]
+  have : ∀ (a x : Int), ¬ ((a = 3 ∨ a = 4) ∧ j ≤ x ∧ x < j) := by intro a x; omega
+  simp [this]
+
+section Loop6
+variable (P : Params) (oracle : Nat → Bool) (fuel : Nat) (ea : Int)
+
+theorem loop6 : ∀ (cnt f j : Nat) (k : ThetaSt OSt), k.fault = none → k.obs.bad = false → k.j = (j : Int) →
+    k.len_list = (j : Int) + (cnt : Int) → k.obs.size 3 = (P.n : Int) → k.obs.size 4 = (P.n : Int) → j + cnt ≤ P.n →
+    0 ≤ k.i → k.i < k.obs.size 5 →
+    (∀ x : Nat, j ≤ x → x < j + cnt → (k.obs.arr 3 (x : Int)).isSome = true ∧ (k.obs.arr 4 (x : Int)).isSome = true) →
+    cnt ≤ f →
+    whileF (ThetaSt.live obs)
+      (fun s => match theta_chain_comput_strategy_loop6_cond obs P.row oracle fuel P.n ea s with | .ok b => b | .error _ => true)
+      (fun s => match theta_chain_comput_strategy_loop6_cond obs P.row oracle fuel P.n ea s with
+        | .ok _ => theta_chain_comput_strategy_loop6_body obs P.row oracle fuel P.n ea s | .error f => s.fail f)
+      (fun s => s.fail .fuel) f k =
+      { k with j := (j : Int) + (cnt : Int), obs := evalQ k.obs (j : Int) ((j : Int) + (cnt : Int)) } := by
+  intro cnt
+  induction cnt with
+  | zero =>
+    intro f j k hf hb hj hl _ _ _ _ _ _ _
+    rw [whileF_stop _ _ _ _ _ _ (by simp [theta_chain_comput_strategy_loop6_cond, hj, hl])]
+    simp only [Int.natCast_zero, Int.add_zero, evalQ_empty]
+    cases k; simp at hj; simp [hj]
+  | succ cnt ih =>
+    intro f j k hf hb hj hl hs3 hs4 hn hi0 hi5 hq hfu
+    obtain ⟨f', rfl⟩ : ∃ f', f = f' + 1 := ⟨f - 1, by omega⟩
+    obtain ⟨q3, q4⟩ := hq j (by omega) (by omega)
+    obtain ⟨v, hv⟩ := Option.isSome_iff_exists.1 q3
+    obtain ⟨w, hw⟩ := Option.isSome_iff_exists.1 q4
+    have hlive : ThetaSt.live obs k = true := by simp [ThetaSt.live, obs, hf, hb]
+    rw [whileF_step _ _ _ _ _ _ (by simp [theta_chain_comput_strategy_loop6_cond, hj, hl, hlive]; omega)]
+    have hj0 : (0 : Int) ≤ (j : Int) := by omega
+    have hj1 : (j : Int) < (P.n : Int) := by omega
+    have hj2 : j < P.n := by omega
+    have hne : ¬ ((4 : Int) = 3) := by omega
+    have hbody : (match theta_chain_comput_strategy_loop6_cond obs P.row oracle fuel P.n ea k with
+        | .ok _ => theta_chain_comput_strategy_loop6_body obs P.row oracle fuel P.n ea k | .error f => k.fail f) =
+        { k with j := (j : Int) + 1, obs := (k.obs.put 3 (j : Int) (v - 1)).put 4 (j : Int) (w - 1) } := by
+      simp [theta_chain_comput_strategy_loop6_cond, theta_chain_comput_strategy_loop6_body, ThetaSt.step, ThetaSt.live, obs,
+        hf, hb, hj, EvKind.evalStep, ev_evalStep_s, OSt.inb, OSt.put, hs3, hs4, hv, hw, hi0, hi5, hj0, hj1, hj2, hne]
+    rw [hbody]
+    have := ih f' (j + 1) { k with j := (j : Int) + 1, obs := (k.obs.put 3 (j : Int) (v - 1)).put 4 (j : Int) (w - 1) }
+      hf (by simp [OSt.put, hb]) (by simp) (by simp only []; rw [hl]; push_cast; omega) (by simp [OSt.put, hs3])
+      (by simp [OSt.put, hs4]) (by omega) hi0 (by simpa [OSt.put] using hi5)
+      (by
+        intro x hx1 hx2
+        have hxj : ¬ (x : Int) = (j : Int) := by omega
+        simpa [OSt.put, hxj] using hq x (by omega) (by omega))
+      (by omega)
+    rw [this]
+    have e1 : ((j + 1 : Nat) : Int) = (j : Int) + 1 := by push_cast; rfl
+    have e2 : (j : Int) + 1 + (cnt : Int) = (j : Int) + ((cnt + 1 : Nat) : Int) := by push_cast; omega
+    simp only [e1, e2]
+    rw [evalQ_step k.obs (j : Int) _ v w hv hw (by omega)]
+end Loop6
+
 end SqiProofs.SkelThetaSim
